@@ -57,8 +57,11 @@ let run_case v line =
     let k = uint k in
     let rec take n l acc = if n = 0 then (List.rev acc, l) else match l with x :: r -> take (n-1) r (x :: acc) | [] -> raise Bad in
     let (ss, ops) = take k rest [] in
-    let bk = List.map (fun s -> match String.split_on_char ':' s with [_; b; _] -> n_of_int (uint b) | _ -> raise Bad) ss in
-    let tys = List.map (fun s -> match String.split_on_char ':' s with [_; _; t] -> t = "g" | _ -> raise Bad) ss in
+    (* sessions are named by co-location class: equal class = same interim bucket; the bucket NUMBER is the
+       implementation's choice, so the model uses the class as the (abstract) bucket *)
+    let bk = List.map (fun s -> match String.split_on_char ':' s with [c; _] -> if uint c > 8 then raise Bad else n_of_int (uint c) | _ -> raise Bad) ss in
+    let tys = List.map (fun s -> match String.split_on_char ':' s with [_; t] -> t = "g" | _ -> raise Bad) ss in
+    let bucket_of b = if b = "z" then n_of_int 99 else n_of_int (uint b) in
     let ann f i rest = if uint i >= k then raise Bad else
         match rest with
         | [x] -> f (nat_of_int (uint i)) (n_of_int (uint x)) N0
@@ -113,13 +116,13 @@ let run_case v line =
             List.iter (function
                 | ("A" | "R") :: i :: rest -> ignore (ann (fun _ _ _ -> ()) i rest)
                 | ["X"; i] -> if uint i >= k then raise Bad
-                | ["T"; b; m] -> ignore (uint b); ignore (uint m)
+                | ["T"; b; m] -> ignore (bucket_of b); ignore (uint m)
                 | _ -> raise Bad) ms;
             if nt > 1 || (has_ar && (oi <> nops - 1 || nt > 0)) then raise Bad;
             if has_ar then begin racy := true; "{ok}" end
             else begin
               let evs = List.filter_map (function ["X"; i] -> Some (GReleased (nat_of_int (uint i), sn)) | _ -> None) ms
-                        @ List.filter_map (function ["T"; b; m] -> Some (GTick (n_of_int (uint b), nat_list_of_mask (uint m) 0 k, sn)) | _ -> None) ms in
+                        @ List.filter_map (function ["T"; b; m] -> Some (GTick (bucket_of b, nat_list_of_mask (uint m) 0 k, sn)) | _ -> None) ms in
               let toks = List.concat (List.map step_one evs) in
               let toks = List.stable_sort compare toks in
               "[" ^ String.concat " " (List.map snd toks) ^ "]"
@@ -133,7 +136,7 @@ let run_case v line =
             GReleased (nat_of_int (uint i), parse_snap sn)
           | ["T"; b; m; sn] ->
             (* while responses are held every Interim of this tick is "sent, no response yet" *)
-            GTick (n_of_int (uint b), (if !hold_int then nat_list_of_mask ((1 lsl k) - 1) 0 k else nat_list_of_mask (uint m) 0 k),
+            GTick (bucket_of b, (if !hold_int then nat_list_of_mask ((1 lsl k) - 1) 0 k else nat_list_of_mask (uint m) 0 k),
                    parse_snap sn)
           | ["B"] -> Array.fill flight_valid 0 k false; GRestart
           | ["P"; p] -> GPrune (p = "1")
